@@ -2,7 +2,7 @@
    A case is (opcode payload...).  The harness sends the same cases to the implementation. *)
 From Coq Require Import ZArith List Bool Arith.
 Import ListNotations.
-From OvldV Require Import Model.Sx Model.Order Model.Ty Model.Codec.
+From OvldV Require Import Model.Sx Model.Order Model.Ty Model.TyDom Spec.Denot Model.Codec.
 
 (* opcode 1: (1 hier (t...) ) -> matrix of typeorder and subclasscheck over all ordered pairs of the listed types:
    ((ord11 ord12 ...) ...) ((sub11 ...) ...) *)
@@ -12,8 +12,21 @@ Definition run_pairs (s : sx) : sx :=
   L [ L (map (fun a => L (map (fun b => of_order (typeorder_h h a b)) ts)) ts);
       L (map (fun a => L (map (fun b => of_obool (subclasscheck_h h a b)) ts)) ts) ].
 
+(* opcode 2: (2 hier (t...) nclasses) -> [typeorder matrix; subclasscheck matrix; msym matrix;
+   per type: (down_closed (denot t c for each class c < nclasses))] *)
+Definition run_lattice (s : sx) : sx :=
+  let h := hier_of (sx_arg 0 s) in
+  let ts := map ty_of (sx_list (sx_arg 1 s)) in
+  let nc := sx_nat (sx_arg 2 s) in
+  L [ L (map (fun a => L (map (fun b => of_order (typeorder_h h a b)) ts)) ts);
+      L (map (fun a => L (map (fun b => of_obool (subclasscheck_h h a b)) ts)) ts);
+      L (map (fun a => L (map (fun b => of_bool (msym a b)) ts)) ts);
+      L (map (fun a => L [of_bool (down_closed a);
+                          L (map (fun c => of_bool (denot (hsub h) (hhasm h) (hchk h) a c)) (seq 0 nc))]) ts) ].
+
 Definition run (s : sx) : sx :=
   match sx_tag s with
   | 1%Z => run_pairs s
+  | 2%Z => run_lattice s
   | _ => A (-999)%Z
   end.
